@@ -89,7 +89,8 @@ def recvDoQOld (buf stream : Bytes) : Outcome × Bytes :=
   else if be16 b = (n - 2) % 65536 then (.view (b.drop 2), b)
   else (.reject .badsize, b)
 
-/-- DoH POST body / GET parameter: a freshly allocated slice, no pool. -/
+/-- DoH POST body / GET parameter: a freshly allocated slice, no pool (as a `Path` it has a
+pool of size 0 that is never touched, so that histories may contain DoH requests). -/
 def recvDoH (body : Bytes) : Outcome := .view body
 
 /-! ## Upstream side (`forward.UpstreamPlain`) -/
@@ -134,7 +135,7 @@ def recvUpsTCPOld (buf stream : Bytes) : Outcome × Bytes :=
 /-! ## Pools and histories -/
 
 inductive Path
-  | udp | tcp | doq | upsUdp | upsTcp
+  | udp | tcp | doq | upsUdp | upsTcp | doh
 deriving DecidableEq, Repr
 
 /-- Buffer sizes of the five pools (`UDPSize`, `TCPSize`, `quicBytePoolSize`, `udpBufSize`,
@@ -149,6 +150,7 @@ deriving Repr
 
 def Cfg.size (c : Cfg) : Path → Nat
   | .udp => c.udp | .tcp => c.tcp | .doq => c.doq | .upsUdp => c.upsUdp | .upsTcp => c.upsTcp
+  | .doh => 0
 
 /-- The production sizes (defaults for the plain-DNS server). -/
 def Cfg.prod : Cfg := { udp := 512, tcp := 512, doq := 65535, upsUdp := 4096, upsTcp := 65535 }
@@ -162,6 +164,7 @@ def recvOn (p : Path) (buf pre wire : Bytes) : Outcome × Bytes :=
   | .doq => recvDoQ buf wire
   | .upsUdp => recvUpsUDP (overwrite buf pre) wire
   | .upsTcp => recvUpsTCP (overwrite buf pre) wire
+  | .doh => (recvDoH wire, buf)
 
 /-- The same with the pre-fix DoQ and upstream code (used only for the counter-examples). -/
 def recvOnOld (p : Path) (buf pre wire : Bytes) : Outcome × Bytes :=
@@ -171,6 +174,7 @@ def recvOnOld (p : Path) (buf pre wire : Bytes) : Outcome × Bytes :=
   | .doq => recvDoQOld buf wire
   | .upsUdp => recvUpsUDPOld (overwrite buf pre) wire
   | .upsTcp => recvUpsTCPOld (overwrite buf pre) wire
+  | .doh => (recvDoH wire, buf)
 
 /-- Free lists of the five pools. -/
 structure Server where
@@ -237,6 +241,166 @@ def spec (p : Path) (size : Nat) (wire : Bytes) : Outcome :=
     else if (wire.drop 2).length < be16 wire then .reject .readfull
     else if be16 wire < minUpstreamSize then .reject .short
     else .view ((wire.drop 2).take (be16 wire))
+  | .doh => .view wire
+
+/-! ## Buffers in flight: reading and decoding are separate events
+
+On every pooled path the buffer stays out of the pool from `Get` until the message has been
+decoded: `acceptUDPMsg`/`acceptTCPMsg` read the message and hand `(*bufPtr)[:n]` to a worker
+goroutine that decodes it *later* and only then calls `Put`; `readQUICMsg` and `exchangeNet` hold
+the buffer (`defer Put`) while other goroutines receive their own messages.  The model below has a
+heap of buffers addressed by identity, a pool (`own … = none`: available) and the set of
+requests whose buffer is in flight.  `accept` is `Get` + read + the pre-`Unpack` guards and records
+only the *slice bounds*; `serve` computes the slice from whatever the heap holds at that moment,
+calls `Unpack` on it and `Put`s the buffer back.  Any number of other `accept`/`serve` events may
+happen in between. -/
+
+/-- `lo`, `hi` of the slice expression handed to `Unpack` (`buf[:n]`, `*bufPtr` re-sliced to
+`length`, `buf[2:n]`), as a function of what was read. -/
+def bounds (p : Path) (size : Nat) (wire : Bytes) : Nat × Nat :=
+  match p with
+  | .udp => (0, min wire.length size)
+  | .tcp => (0, be16 wire)
+  | .doq => (2, min wire.length size)
+  | .upsUdp => (0, min wire.length size)
+  | .upsTcp => (0, be16 wire)
+  | .doh => (0, wire.length)
+
+/-- A request whose message sits in pooled buffer `bid` of `path`, waiting to be decoded. -/
+structure Pending where
+  path : Path
+  bid : Nat
+  lo : Nat
+  hi : Nat
+deriving DecidableEq, Repr
+
+/-- Two-level function table update. -/
+def upd2 {α : Type} (f : Path → Nat → α) (p : Path) (i : Nat) (a : α) : Path → Nat → α :=
+  fun q j => if q = p ∧ j = i then a else f q j
+
+structure Sys where
+  cfg : Cfg
+  /-- contents of every buffer (never-used identities hold a new zeroed buffer) -/
+  heap : Path → Nat → Bytes
+  /-- `none`: in the pool (or not yet allocated); `some rid`: taken by request `rid` -/
+  own : Path → Nat → Option Nat
+  pend : Nat → Option Pending
+
+def Sys.init (c : Cfg) : Sys :=
+  { cfg := c, heap := fun p _ => zeros (c.size p), own := fun _ _ => none, pend := fun _ => none }
+
+/-- DoH has no pooled buffer: the body is its own freshly allocated slice. -/
+def landing (p : Path) (buf wire : Bytes) : Bytes :=
+  match p with
+  | .doh => wire
+  | _ => buf
+
+/-- `Get` of buffer `bid` (any buffer that is not held; `sync.Pool` may return any of them or a
+new one), read, guards.  A rejected message releases the buffer at once and reports the reason;
+otherwise the request becomes pending.  A `Get` of a held buffer cannot happen and is ignored, as
+is the reuse of a live request identifier. -/
+def Sys.accept (s : Sys) (rid : Nat) (p : Path) (bid : Nat) (pre wire : Bytes) : Sys × Option Outcome :=
+  if (s.pend rid).isSome then (s, none)
+  else if (s.own p bid).isSome then (s, none)
+  else
+    match (recvOn p (s.heap p bid) pre wire).1 with
+    | .reject w =>
+      ({ s with heap := upd2 s.heap p bid (landing p (recvOn p (s.heap p bid) pre wire).2 wire) },
+       some (.reject w))
+    | .view _ =>
+      ({ s with heap := upd2 s.heap p bid (landing p (recvOn p (s.heap p bid) pre wire).2 wire),
+                own := upd2 s.own p bid (some rid),
+                pend := fun r' => if r' = rid then
+                    some ⟨p, bid, (bounds p (s.heap p bid).length wire).1, (bounds p (s.heap p bid).length wire).2⟩
+                  else s.pend r' }, none)
+
+/-- The same with the pool discipline broken: the buffer goes back to the pool when `accept`
+returns (e.g. `defer pool.Put(bufPtr)` in `acceptUDPMsg`), before the worker has decoded it.  Used
+only for the counter-example. -/
+def Sys.acceptEarlyPut (s : Sys) (rid : Nat) (p : Path) (bid : Nat) (pre wire : Bytes) : Sys × Option Outcome :=
+  if (s.pend rid).isSome then (s, none)
+  else if (s.own p bid).isSome then (s, none)
+  else
+    match (recvOn p (s.heap p bid) pre wire).1 with
+    | .reject w =>
+      ({ s with heap := upd2 s.heap p bid (landing p (recvOn p (s.heap p bid) pre wire).2 wire) },
+       some (.reject w))
+    | .view _ =>
+      ({ s with heap := upd2 s.heap p bid (landing p (recvOn p (s.heap p bid) pre wire).2 wire),
+                pend := fun r' => if r' = rid then
+                    some ⟨p, bid, (bounds p (s.heap p bid).length wire).1, (bounds p (s.heap p bid).length wire).2⟩
+                  else s.pend r' }, none)
+
+/-- The worker: `Unpack` of the recorded slice of the buffer *as it is now*, then `Put`. -/
+def Sys.serve (s : Sys) (rid : Nat) : Sys × Option Outcome :=
+  match s.pend rid with
+  | none => (s, none)
+  | some pd =>
+    ({ s with own := upd2 s.own pd.path pd.bid none,
+              pend := fun r' => if r' = rid then none else s.pend r' },
+     some (.view (((s.heap pd.path pd.bid).take pd.hi).drop pd.lo)))
+
+inductive Ev
+  | accept (rid : Nat) (p : Path) (bid : Nat) (pre wire : Bytes)
+  | serve (rid : Nat)
+
+def Ev.rid : Ev → Nat
+  | .accept r _ _ _ _ => r
+  | .serve r => r
+
+def Sys.step (s : Sys) : Ev → Sys × Option Outcome
+  | .accept rid p bid pre wire => s.accept rid p bid pre wire
+  | .serve rid => s.serve rid
+
+def Sys.run (s : Sys) : List Ev → Sys
+  | [] => s
+  | e :: rest => Sys.run (s.step e).1 rest
+
+/-- Schedules of the variant with the broken pool discipline. -/
+def Sys.stepEarly (s : Sys) : Ev → Sys × Option Outcome
+  | .accept rid p bid pre wire => s.acceptEarlyPut rid p bid pre wire
+  | .serve rid => s.serve rid
+
+def Sys.runEarly (s : Sys) : List Ev → Sys
+  | [] => s
+  | e :: rest => Sys.runEarly (s.stepEarly e).1 rest
+
+/-! ## Response side: `packWithPrefix` into a pooled buffer
+
+`PackBuffer(buf)` writes the packed message `msg` into the array of the pooled buffer when it fits
+(`len(buf) ≥ len(msg)`), otherwise into a new array; `packWithPrefix` then makes room for the
+2-byte length (`slices.Grow(buf, 2)[:l+2]`, a new array when the capacity is exhausted), shifts the
+message by two (`copy(packed[2:], buf)`, a `memmove`) and stores the length.  `arr` is the whole
+capacity of the pooled array, `len` the length of the pooled slice. -/
+
+/-- Write `data` into `arr` at offset `off` (bytes that do not fit are dropped). -/
+def writeAt (arr : Bytes) (off : Nat) (data : Bytes) : Bytes :=
+  arr.take off ++ overwrite (arr.drop off) data
+
+/-- Big-endian 2-byte length. -/
+def be16Bytes (n : Nat) : Bytes := [UInt8.ofNat (n / 256), UInt8.ofNat (n % 256)]
+
+/-- `PackBuffer`: the array that now holds the message in its first `msg.length` bytes. -/
+def packBuffer (arr : Bytes) (len : Nat) (msg : Bytes) : Bytes :=
+  if msg.length ≤ min len arr.length then overwrite arr msg else msg
+
+/-- `slices.Grow(b, 2)` for `b = arr[:l]`: same array if two more bytes fit, else a copy of the
+whole capacity followed by zeroes. -/
+def grow2 (arr : Bytes) (l : Nat) : Bytes :=
+  if l + 2 ≤ arr.length then arr else arr ++ zeros (l + 2 - arr.length)
+
+/-- The bytes `packWithPrefix` returns (and the transport writes), and the array afterwards. -/
+def packWithPrefix (arr : Bytes) (len : Nat) (msg : Bytes) : Bytes × Bytes :=
+  let a1 := packBuffer arr len msg
+  let l := msg.length
+  let a2 := grow2 a1 l
+  let shifted := writeAt a2 2 (a1.take l)
+  let a3 := overwrite shifted (be16Bytes l)
+  (a3.take (l + 2), a3)
+
+/-- UDP: `b := PackBuffer(*bufPtr)`, `WriteToSession(conn, b, …)`. -/
+def packUDP (arr : Bytes) (len : Nat) (msg : Bytes) : Bytes × Bytes :=
+  ((packBuffer arr len msg).take msg.length, packBuffer arr len msg)
 
 /-! ## A tiny DNS reader, used only to exhibit witnesses -/
 
